@@ -92,9 +92,10 @@ def parse_check(ctx):
         cfg2 = cfg2.replace('  Emit\n', '')
         if not thorough:
             cfg2 = cfg2.replace('Vers = {"2.0", "3.0", "3.1", "4.0"}', 'Vers = {"2.0", "3.1", "4.0"}')
-        # liveness: under weak fairness every call reaches pc = "done" (no cursor state loops)
-        cfg2 = cfg2.replace('INIT Init\nNEXT Next\n', 'SPECIFICATION Spec\n').replace('CHECK_DEADLOCK FALSE', 'PROPERTY Terminates\nCHECK_DEADLOCK FALSE')
-        extra['liveness_checked'] = 'Terminates == <>(ps.pc = "done") under WF_vars(Next), whole small-step state graph'
+        else:
+            # liveness (thorough only: it triples the time of the quick run): under weak fairness every call reaches pc = "done"
+            cfg2 = cfg2.replace('INIT Init\nNEXT Next\n', 'SPECIFICATION Spec\n').replace('CHECK_DEADLOCK FALSE', 'PROPERTY Terminates\nCHECK_DEADLOCK FALSE')
+            extra['liveness_checked'] = 'Terminates == <>(ps.pc = "done") under WF_vars(Next), whole small-step state graph'
         r2 = ctx.tlc('MC_Parse', cfg2, name='MC_Parse_small_' + pid)
         extra['small_step_states'] = r2['distinct']
     cov = dict(
